@@ -37,8 +37,8 @@ INFO = {
 }
 
 COLS = ['fa', 'fb', 'fc', 'label']
-# the corrected score is not symmetric on this frame: score(fa|fb) != score(fb|fa) etc.
-FRAME = [['b', 'q', 'u', '0'], ['b', 'q', 'w', '1'], ['c', 'p', 'u', '0'], ['a', 'q', 'w', '1'], ['a', 'q', 'u', '1'], ['b', 'q', 'u', '0'], ['a', 'p', 'u', '1'], ['c', 'q', 'v', '0']]
+# the corrected score is not symmetric on these frames (score(fa|fb) != score(fb|fa) ...) and every feature-label score is non-zero
+FRAME = [['c', 'q', 'u', '1'], ['b', 'q', 'w', '0'], ['b', 'p', 'u', '0'], ['a', 'q', 'v', '0'], ['b', 'q', 'w', '1'], ['a', 'p', 'w', '0'], ['c', 'q', 'v', '1'], ['c', 'q', 'w', '1']]
 
 
 # a larger frame for the runs with a sampling ratio < 1 (the sampled rows must matter for the scores)
@@ -46,9 +46,8 @@ FRAME_R = [['c', 'p', 'v', '0'], ['c', 'p', 'w', '1'], ['b', 'p', 'v', '0'], ['a
            ['c', 'p', 'w', '0'], ['b', 'q', 'u', '1'], ['a', 'p', 'w', '0'], ['a', 'q', 'w', '1']]
 
 
-# a second mini-batch (same columns, other values) for the two-batch history
-FRAME_B = [[r[2] if r[2] in 'uv' else 'u', r[1], r[0], r[3]] for r in FRAME][::-1]
-FRAME_B = [['a' if x[0] == 'u' else 'c', x[1], x[2] if x[2] != 'c' else 'a', x[3]] for x in FRAME_B]
+# a second mini-batch (same columns, other values, other scores) for the two-batch history
+FRAME_B = [['b', 'p', 'v', '0'], ['b', 'p', 'u', '1'], ['c', 'q', 'v', '0'], ['b', 'p', 'u', '1'], ['a', 'q', 'u', '0'], ['b', 'q', 'v', '1'], ['c', 'q', 'w', '0'], ['c', 'q', 'u', '0']]
 
 
 def lehmer(ctx_vars, n, decide_int, bounds=None):
